@@ -1,5 +1,82 @@
 package main
 
-import "errors"
+// stress.go: the ungated mode.  Several full (non sparse) image copies run concurrently into one
+// layout through one client while closer goroutines call rc.Close in a loop -- real concurrency,
+// including closes that race with the inside of a put, which the gated mode cannot produce.
+// Nothing is audited while the race is on; the trace holds the begin / end of the copies and one
+// audit at the end with strict=1: no copy was sparse and nothing was deleted explicitly, so every
+// digest a tag reaches must be present (spec/LayoutGCProp.tla, O5).
 
-func (w *world) stress() error { return errors.New("stress mode not implemented") }
+import (
+	"runtime"
+	"sort"
+	"sync"
+	"sync/atomic"
+
+	"github.com/regclient/regclient/zzverif/vtrace"
+)
+
+func (w *world) stress() error {
+	w.mu.Lock()
+	w.open = true
+	w.mu.Unlock()
+	w.emit(vtrace.Event{"ev": "start", "gc": b2i(w.sc.Conf.GC)})
+	cs := []string{}
+	for c := range w.sc.Conf.CP {
+		cs = append(cs, c)
+	}
+	sort.Strings(cs)
+	var running atomic.Int32
+	running.Store(int32(len(cs)))
+	var cwg sync.WaitGroup
+	keys := w.sc.Conf.CKeys
+	for k := 0; k < 2; k++ {
+		cwg.Add(1)
+		go func(k int) {
+			defer cwg.Done()
+			for i := 0; running.Load() > 0; i++ {
+				r, err := w.tgtRef(keys[(i+k)%len(keys)], "", "")
+				if err == nil {
+					_ = w.rc.Close(w.ctx, r)
+				}
+				runtime.Gosched()
+			}
+		}(k)
+	}
+	for _, c := range cs {
+		if err := w.startCopy(c); err != nil {
+			return err
+		}
+	}
+	// startCopy's goroutines record their result in w.done; poll without touching the layout
+	for {
+		w.mu.Lock()
+		n := len(w.done)
+		w.mu.Unlock()
+		if n == len(cs) {
+			break
+		}
+		runtime.Gosched()
+	}
+	running.Store(0)
+	cwg.Wait()
+	if err := w.quiesce(); err != nil {
+		return err
+	}
+	allOK := true
+	w.mu.Lock()
+	for _, c := range cs {
+		allOK = allOK && w.done[c].err == nil
+	}
+	w.mu.Unlock()
+	w.reap()
+	if err := w.doClose(keys[0]); err != nil {
+		return err
+	}
+	fs := w.snap()
+	ev := vtrace.Event{"ev": "final", "strict": b2i(allOK)}
+	w.addSnap(ev, "b_", fs, true)
+	w.emit(ev)
+	w.exact = 1
+	return nil
+}
